@@ -59,16 +59,26 @@ def main():
             return
         suites = {}
         for m, cmd in (("gbn", "go test -vet=off -count=1 ./..."), ("mailbox", "go test -vet=off -count=1 .")):
-            ok = True
-            tail = ""
-            for _ in range(2):
+            # two passing runs are required; a failure that consists only of the timing test
+            # TestInterfaceTickers (10 ms tolerances; it flakes on the unchanged tree as well when the
+            # machine is busy) is retried, anything else fails the suite at once
+            passes, runs, tail, ok = 0, 0, "", True
+            while passes < 2 and runs < 5:
+                runs += 1
                 rc, out = run(cmd, os.path.join(wt, m), 900)
-                if rc != 0:
+                if rc == 0:
+                    passes += 1
+                    continue
+                tail = out[-800:]
+                failed = set(l.split()[2] for l in out.splitlines() if l.startswith("--- FAIL:"))
+                if failed - {"TestInterfaceTickers"}:
                     ok = False
-                    tail = out[-800:]
+                    break
+            ok = ok and passes >= 2
             suites[m] = "pass" if ok else "FAIL"
             if tail:
                 suites[m + "_tail"] = tail
+                suites[m + "_runs"] = runs
         res["suites_with_change"] = suites
         shutil.copy(demo_src, demo_dst)
         rc, out = run(demo_cmd, os.path.join(wt, demo_dir), 600)
@@ -89,7 +99,7 @@ def main():
         res["checks_reporting"] = caught
         res["caught_by_own_property"] = meta.get("property") in caught
         res["confirmed"] = (res["demo_without_change"] == "pass" and res["demo_with_change"] == "fail"
-                            and all(v == "pass" for k, v in suites.items() if not k.endswith("_tail")))
+                            and all(v == "pass" for k, v in suites.items() if not (k.endswith("_tail") or k.endswith("_runs"))))
     finally:
         run(f"git -C /repo worktree remove --force {wt}", "/")
         shutil.rmtree(wt, ignore_errors=True)
